@@ -201,9 +201,11 @@ func replay() {
 	cfg, alName, ops := sp.ParseHistory(m)
 	var al []sp.Msg
 	if alName == "sweep" {
-		fmt.Println("sweep cases are replayed by re-running the sweep value; see 'sweep' and 'sweep_value' in the file")
-		al = sp.FullAlphabet()
-	} else {
+		fmt.Println("sweep case", m["sweep"], m["sweep_value"], "- the whole sweep is re-run")
+		sweep(0, 1)
+		ctx.Finish("replay")
+	}
+	{
 		al = sp.Alphabet(alName)
 	}
 	in := sp.Build(cfg, al, ops)
